@@ -18,7 +18,7 @@ EXPLANATION = (
     "linearizability of the deque; moodycamel's ConcurrentQueue (third party) is not analysed.")
 ASSUMPTIONS = ["std::atomic<range>::compare_exchange_weak is atomic on the 64-bit range word", "tagged_ptr_pair::cas is a 128-bit compare-exchange"]
 THOROUGH_CONFIGS = [["-UNDEBUG", "-DPIKA_DEBUG"]]
-FLOORS = {"C17.R1": 6, "C17.R2": 2, "C17.R3": 3, "C17.R4": 12, "C17.R5": 9}
+FLOORS = {"C17.R1": 6, "C17.R2": 2, "C17.R3": 3, "C17.R4": 12, "C17.R5": 9, "C17.R6": 1}
 
 CIQ = "pika::concurrency::detail::contiguous_index_queue"
 _cache = {}
@@ -162,6 +162,7 @@ def run(rep, tier):
     rep.rule("C17.R2", "offsets: pop_left returns first / installs [first+1,last); pop_right returns last-1 / installs [first,last-1)")
     rep.rule("C17.R3", "K9: range fits a lock-free 64-bit atomic")
     rep.rule("C17.R4", "K8/K6: deque: every anchor/link CAS changes the tag; success reported only after a successful anchor CAS; unstable push followed by stabilize")
+    rep.rule("C17.R6", "K8 (vendored FIFO queue, one structural clause only): when a producer's circular block index grows, the old ring is copied in logical order - the source position starts from the ring's tail and wraps around - not as a flat array (after the ring has rotated a flat copy permutes the blocks: FIFO order breaks, blocks are released early)")
     rep.rule("C17.R5", "K8: back-ends: one container operation per push/pop path; LIFO/FIFO/steal ends")
     index_queue_rules(rep, "C17.R1")
     # R2 is reported inside index_queue_rules under the same id; mirror counts for the floor
@@ -273,3 +274,48 @@ def run(rep, tier):
                 rep.ok("C17.R5", be, "%s: push at %s, owner pops %s, thief pops %s" % (be, push_end, pop_owner, pop_steal))
             else:
                 rep.bad("C17.R5", be, fs[0].loc, be + ":ends", "%s: push at %s, owner pops %s, thief pops %s - does not match its %s%s discipline" % (be, push_end, pop_owner, pop_steal, kind, " + steal-from-the-other-end" if abp else ""))
+
+    # ---- R6: ring growth of the vendored concurrent queue's implicit producer (the one lockfree_fifo uses)
+    NB = [f for f in D.find(r"ConcurrentQueue::ImplicitProducer::new_block_index$") if not f.pattern and f.parent == -1]
+    if not NB:
+        NBF = facts(rep, driver("c17_queues.cpp"), [r"ConcurrentQueue::ImplicitProducer::new_block_index$"])
+        NB = [f for f in NBF.fns if not f.pattern and f.parent == -1]
+    if not NB:
+        raise AnalysisBroken("ConcurrentQueue::ImplicitProducer::new_block_index not instantiated")
+    for fn in NB[:1]:
+        bulk = [e for _, _, e in fn.all_events() if e.get("k") == "call" and callee_short(e) in ("copy", "copy_n", "memcpy", "memmove", "uninitialized_copy", "uninitialized_copy_n")
+                and "prev->index" in T(e)]
+        reads = []
+        for b, i, e in fn.all_events():
+            if e.get("k") == "write" and e.get("rhs") is not None:
+                m = re.search(r"prev->index\[([^\]]+)\]", T(e["rhs"]))
+                if m:
+                    reads.append((b, i, e, m.group(1)))
+        probs = []
+        if bulk:
+            probs.append("the previous index is copied with %s(...) as a flat array" % callee_short(bulk[0]))
+        if not reads and not bulk:
+            raise AnalysisBroken("new_block_index: copy of the previous index not recognised")
+        for b, i, e, x in reads:
+            wraps = [w for _, _, w in fn.all_events() if w.get("k") == "write" and P(w["lhs"]) == x and w.get("rhs") is not None and
+                     re.search(r"\(%s \+ 1\) & \(prev->capacity - 1\)" % re.escape(x), T(w["rhs"]))]
+            d = [w for _, _, w in fn.all_events() if w.get("k") == "decl" and w.get("var") == x and w.get("init") is not None]
+            from_tail = False
+            cur = d[0]["init"] if d else None
+            for _ in range(3):
+                if cur is None:
+                    break
+                t_ = T(strip(cur))
+                if "tail.load(" in t_:
+                    from_tail = True
+                    break
+                d2 = [w for _, _, w in fn.all_events() if w.get("k") == "decl" and w.get("var") == t_ and w.get("init") is not None]
+                cur = d2[0]["init"] if d2 else None
+            if not wraps or not from_tail:
+                probs.append("source position '%s' is not a wrap-around walk starting at the ring's tail (wraps: %s, starts at tail: %s)" % (x, bool(wraps), from_tail))
+        if probs:
+            rep.bad("C17.R6", fn, loc_of((bulk or [reads[0][2]])[0]), "ring-copy", "ImplicitProducer::new_block_index: %s - once a block has been released the ring has rotated, and the "
+                    "grown index maps positions to the wrong blocks (FIFO order violated, elements lost / handed out twice under concurrency)" % "; ".join(probs))
+        else:
+            rep.ok("C17.R6", fn, "the grown block index is filled by walking the old ring from its tail with wrap-around (%d element copy site(s))" % len(reads))
+
